@@ -249,7 +249,13 @@ func execC12(c C12Case) *Failure {
 			r.ver = int(verSeq.Add(1))
 			tag := fmt.Sprintf("%s:v%d", name, r.ver)
 			// every version's descriptor is built from the same struct type plus one parameter of its own
+			ver := r.ver
 			w.Srv.RegisterTool(mcp.NewTool(name, mcp.WithDescription(tag), mcp.WithInputStruct[typedInner](), mcp.WithString(fmt.Sprintf("p%d", r.ver))), func(ctx context.Context, req *mcp.CallToolRequest) (*mcp.CallToolResult, error) {
+				// handlers take a moment (their tool may be removed or replaced meanwhile); two in three answer with a JSON document as text
+				time.Sleep(time.Duration(ver%4) * 150 * time.Microsecond)
+				if ver%3 != 0 {
+					return mcp.NewTextResult(fmt.Sprintf(`{"tag":"%s","n":%d}`, tag, ver)), nil
+				}
 				return mcp.NewTextResult(tag), nil
 			})
 		case "unreg":
@@ -353,7 +359,52 @@ func execC12(c C12Case) *Failure {
 	for _, op := range []string{"listtools", "listprompts", "listres"} {
 		run(C12Op{Op: op}, 98)
 	}
-	return judgeC12(c, recs)
+	if f := judgeC12(c, recs); f != nil {
+		return f
+	}
+	return c12HandlerSwap(c, w, conn)
+}
+
+// c12HandlerSwap: re-registering a name replaces its handler also when the descriptor did not change (the same pointer, or a
+// fresh value equal to the old one): the next request is served by the new handler.
+func c12HandlerSwap(c C12Case, w *World, conn *Conn) *Failure {
+	ask := func(method, params string) string {
+		id := fmt.Sprintf(`"swap-%s"`, method)
+		ex := conn.Send([]byte(fmt.Sprintf(`{"jsonrpc":"2.0","id":%s,"method":%q,"params":%s}`, id, method, params)), id, Bound())
+		if len(ex.Frames) == 0 {
+			return fmt.Sprintf("no answer (status %d, %v)", ex.Status, ex.Err)
+		}
+		return string(ex.Frames[len(ex.Frames)-1])
+	}
+	for round, samePtr := range []bool{true, false} {
+		gen := fmt.Sprintf("swap%d", round)
+		pd := &mcp.Prompt{Name: gen, Description: "unchanged", Arguments: []mcp.PromptArgument{{Name: "a"}}}
+		rd := &mcp.Resource{URI: "swap://" + gen, Name: gen, Description: "unchanged", MimeType: "text/plain"}
+		for v := 1; v <= 3; v++ {
+			mark := fmt.Sprintf("%s-handler-%d", gen, v)
+			p2, r2 := pd, rd
+			if !samePtr {
+				cp, cr := *pd, *rd
+				cp.Arguments = append([]mcp.PromptArgument(nil), pd.Arguments...)
+				p2, r2 = &cp, &cr
+			}
+			w.Srv.RegisterPrompt(p2, func(ctx context.Context, req *mcp.GetPromptRequest) (*mcp.GetPromptResult, error) {
+				return &mcp.GetPromptResult{Description: mark}, nil
+			})
+			w.Srv.RegisterResource(r2, func(ctx context.Context, req *mcp.ReadResourceRequest) (mcp.ResourceContents, error) {
+				return mcp.TextResourceContents{URI: "swap://" + gen, Text: mark}, nil
+			})
+			w.Srv.RegisterTool(mcp.NewTool(gen, mcp.WithDescription("unchanged")), func(ctx context.Context, req *mcp.CallToolRequest) (*mcp.CallToolResult, error) {
+				return mcp.NewTextResult(mark), nil
+			})
+			for _, q := range [][3]string{{"prompt", "prompts/get", fmt.Sprintf(`{"name":%q}`, gen)}, {"res", "resources/read", fmt.Sprintf(`{"uri":%q}`, "swap://"+gen)}, {"tool", "tools/call", fmt.Sprintf(`{"name":%q,"arguments":{}}`, gen)}} {
+				if got := ask(q[1], q[2]); !strings.Contains(got, mark) {
+					return Failf("C12/stale-handler/"+q[0], "%s: %q was registered %d times with an unchanged descriptor (same pointer: %v) and a new handler each time; %s after the last registration is answered %.200s, the handler registered last answers %q", c.Mode, gen, v, samePtr, q[1], got, mark)
+				}
+			}
+		}
+	}
+	return nil
 }
 
 // judgeC12: interval reasoning over the recorded history.
@@ -417,6 +468,27 @@ func judgeC12(c C12Case, recs []*c12Rec) *Failure {
 			}
 		}
 		return out
+	}
+	// supersededBefore: every registration that carried this version tag had completed, and a later one of the same key had
+	// begun after it and completed, before instant s - the registry can no longer hold that version at s
+	supersededBefore := func(reg, k, tag string, s int64) bool {
+		any := false
+		for _, x := range writes[reg+"|"+k] {
+			if !x.reg || fmt.Sprintf("%s:v%d", k, x.ver) != tag {
+				continue
+			}
+			any = true
+			replaced := false
+			for _, y := range writes[reg+"|"+k] {
+				if y.reg && !y.maybe && y.start > x.end && y.end < s {
+					replaced = true
+				}
+			}
+			if !replaced {
+				return false
+			}
+		}
+		return any
 	}
 	hist := func() string {
 		var b []string
@@ -483,6 +555,9 @@ func judgeC12(c C12Case, recs []*c12Rec) *Failure {
 							return Failf("C12/torn-entry/"+reg, "%s: %s lists %q (descriptor %q) with parameters [%s], it was registered with [%s]\nhistory: %s", c.Mode, r.op.Op, k, tag, got, strings.Join(want, ","), hist())
 						}
 					}
+					if supersededBefore(reg, k, tag, r.start) {
+						return Failf("C12/stale-entry/"+reg, "%s: %s [%d-%d] lists %q with descriptor %q although a later registration of it had completed before the list began\nhistory: %s", c.Mode, r.op.Op, r.start, r.end, k, desc, hist())
+					}
 					if !versionsOf(reg, k, r.end)[tag] || !strings.HasSuffix(desc, "|"+n) {
 						return Failf("C12/torn-entry/"+reg, "%s: %s lists %q with descriptor %q, which is none of the registered versions %v\nhistory: %s", c.Mode, r.op.Op, k, desc, sortedKeys(versionsOf(reg, k, r.end)), hist())
 					}
@@ -540,8 +615,13 @@ func judgeC12(c C12Case, recs []*c12Rec) *Failure {
 			if r.ok {
 				found := false
 				for tag := range versionsOf(reg, k, r.end) {
-					if strings.Contains(r.text, tag+`"`) {
+					if strings.Contains(r.text, tag+`"`) || strings.Contains(r.text, tag+`\"`) {
 						found = true
+					}
+				}
+				for tag := range versionsOf(reg, k, r.end) {
+					if (strings.Contains(r.text, tag+`"`) || strings.Contains(r.text, tag+`\"`)) && supersededBefore(reg, k, tag, r.start) {
+						return Failf("C12/stale-handler/"+reg, "%s: %s %q [%d-%d] was served by version %s although a later registration had completed before the request began\nhistory: %s", c.Mode, r.op.Op, k, r.start, r.end, tag, hist())
 					}
 				}
 				if !found {
